@@ -13,6 +13,10 @@ repair (proposed or already committed) are modelled for BOTH shapes of the code;
   get_binds_before_flush      EntityMeta._find_in_db_ binds the query arguments before the auto-flush (True: a new object used as a
                               criterion has no primary key yet, the query gets NULL) / after prepare_connection_for_query_execution (False)
   select_binds_before_flush   Query._actual_fetch: the same for select(**kwargs) / queries with entity parameters
+  failed_create_unregisters   Entity.__init__: when the creation raises after _get_from_identity_map_ registered the new object, the except block removes it
+                              from the primary-key index again (True; /repo commit 751c8a4) / leaves the half-built object there (False: the recorded
+                              defect "phantom").  The model keeps the phantom at its dirty site 1 (no claim is made after it); the flag guards the two
+                              witnesses that refute the invariants for the old shape (Findings/C11.v, Findings/C12.v)
 
 Anything else (the statements are missing or in an unexpected order) raises TranslateError: the model does not know that code.
 """
@@ -61,6 +65,10 @@ def flags():
     if '_construct_sql_and_arguments(' not in b or 'prepare_connection_for_query_execution()' not in b:
         raise vlib.TranslateError('Query._actual_fetch: construction / connection preparation not found')
     out['select_binds_before_flush'] = b.index('_construct_sql_and_arguments(') < b.index('prepare_connection_for_query_execution()')
+    b = body('Entity', '__init__')
+    if 'for undo_func in reversed(undo_funcs): undo_func()' not in b or '_get_from_identity_map_(' not in b:
+        raise vlib.TranslateError('Entity.__init__: creation through _get_from_identity_map_ / the undo of a failed creation not found')
+    out['failed_create_unregisters'] = 'if pk_index.get(pkval) is obj: del pk_index[pkval]' in b
     return out
 
 
@@ -72,7 +80,8 @@ def generate():
              'Definition assign_rebooks_one_to_many : bool := %s.' % str(fl['assign_rebooks_one_to_many']).lower(),
              'Definition entity_set_registers_undo : bool := %s.' % str(fl['entity_set_registers_undo']).lower(),
              'Definition get_binds_before_flush : bool := %s.' % str(fl['get_binds_before_flush']).lower(),
-             'Definition select_binds_before_flush : bool := %s.' % str(fl['select_binds_before_flush']).lower(), '']
+             'Definition select_binds_before_flush : bool := %s.' % str(fl['select_binds_before_flush']).lower(),
+             'Definition failed_create_unregisters : bool := %s.' % str(fl['failed_create_unregisters']).lower(), '']
     return '\n'.join(lines)
 
 
